@@ -43,8 +43,18 @@ package compat
 
 // The target message is overwritten only after the legacy decode succeeded, the repair succeeded AND changed
 // something, and the repaired message was re-encoded; every other outcome is an error.
+// resetFrom: the byte slice the message was last decoded from by a RESETTING decode (Marshaler.Unmarshal clears
+// the message first). 'Only the offending bytes replaced, every other field intact' needs the caller's message to
+// end up as exactly the decode of the repaired encoding - not that decode merged on top of what a failed first
+// decode left behind.
+//@ ghost common.Marshaler.resetFrom ref
+//@ extern (common.Marshaler).Unmarshal@convertAndRepairInvalidUTF8(m, data)
+//@   trusted generated protobuf code: Unmarshal resets the receiver and decodes data into it
+//@   ensures result == nil ==> m.resetFrom == base(data)
+//@   assigns *, m.resetFrom
 //@ contract convertAndRepairInvalidUTF8
 //@   props C17
+//@   ensures @target_is_exactly_the_repaired_decode: result == nil ==> cast(v, "common.Marshaler").resetFrom == base(repaired)
 //@   callpre Unmarshal.2: @after_successful_repair: changed && err == nil && ok && msg122 != nil
 
 // Failure chains: only Message fields are written, the walk is bounded by the depth limit, and an error is
